@@ -11,6 +11,7 @@ from props.slicing_kernels import kernels  # noqa: F401  (same traced kernels as
 ID = "C02"
 N_CASES = {"quick": 240, "thorough": 5000, "search": 2500}
 SHARD = 60
+DEFINITIONAL = ["C02_slice_empty_inputs"]  # the model evaluated on empty lists (closed by reflexivity)
 EXTRA_TARGETS = ["proofs/P_slicing_tie.vo"]  # imported by the generated tie lemmas only
 RULE = ("seeded random meshes as for C01 with more empty inputs (zero vertices / zero faces / everything behind), "
         "int32 face arrays, unreferenced vertices, masks, both ret_face_mapping; each case is also re-sliced, sliced "
@@ -151,7 +152,7 @@ def oracle(c, o):
             return "empty input did not give empty arrays"
     if c["vertices"] and all(x < -S.TOL for x in d) and all(sel) and (full["v"] or full["f"] or full["map"]):
         return "mesh wholly behind the plane did not give empty arrays"
-    mag = max([Fr(1)] + [abs(x) for v in V for x in v] + [abs(x) for x in ref])
+    mag = max([Fr(0)] + [abs(x) for v in V for x in v] + [abs(x) for x in ref])  # no absolute floor
     loose = Fr(1, 10 ** 9)
     # idempotence
     rs = o.get("reslice")
